@@ -97,7 +97,8 @@ Publication(e) ==                    \* never unsolicited; contents as Lsp.tla d
     /\ IF Labelled(e)
        THEN /\ expq[e.d] # <<>>
             /\ Head(expq[e.d]) = SetOf(e.codes)
-            /\ Len(e.codes) = Cardinality(SetOf(e.codes))        \* no diagnostic code set published with duplicates of one cause
+            \* every finding once: a code occurs as often as the latest content has findings of that code
+            /\ \A c \in SetOf(e.codes) : Cardinality({ i \in 1..Len(e.codes) : e.codes[i] = c }) = Multiplicity(e.d, ver, c)
             /\ expq' = [expq EXCEPT ![e.d] = Tail(@)]
        ELSE expq' = expq
     /\ UNCHANGED <<phase, pending, sreq, owedRef, scan, rooted>> /\ LspUnchanged
